@@ -86,7 +86,7 @@ ASSUMPTIONS = [
 ]
 TRUSTED_BASE = ['shlex.quote', 'shell_literal_word (quote removal)', 'recording fakes for batch client / remote fs', 'pickle-backed dill shim']
 SHARDS = {'quick': 1, 'thorough': 16}
-TIMEOUT = {'quick': 600, 'thorough': 1800}
+TIMEOUT = {'quick': 900, 'thorough': 1800}
 
 
 def FLOORS(tier):
